@@ -399,6 +399,23 @@ def run(tier, seed):
     for _ in range(nrand):
         programs.append(rand_program(rng))
     lines = [lua_line("P%d" % i, src) for i, (_, src) in enumerate(programs)]
+    # the C01 language stream (lib/gen_lua.ProgramGen, the generator of the LuaCore comparison): broad language coverage
+    nlang = 400 if tier == "quick" else 6000
+    lang_cases = []
+    try:
+        from lib import gen_lua
+        for j in range(nlang):
+            g = gen_lua.ProgramGen(rng.fork(), None)
+            body, tuples, _f = g.program()
+            src = gen_lua.render(body, j % len(gen_lua.STYLES), vlib.SplitMix64(rng.next() & 0xFFFFFFF))
+            args = ",".join(tuples[0]) or "-"
+            lang_cases.append({"ast": body, "style": 0, "args": tuples[0], "rseed": 1})
+            programs.append(("language-stream", src))
+            lines.append("P%d %s args=%s" % (len(lines), src.encode("latin1").hex(), args))
+    except Exception as ex:                                   # the shared generator is another agent's file
+        ck.notes.append("language stream not available: %r" % (ex,))
+        del programs[len(lines):]
+    ck.cov["language_stream_programs"] = len(lang_cases)
     outs = {}
 
     def run_config(b):
@@ -454,6 +471,14 @@ def run(tier, seed):
                                  {"kind": "Go!=S", "engine": "lua", "configuration": name, "source": src,
                                   "default": base[i][:2000], name: o[:2000], "theorems": THEOREMS})
                 break
+    # informational: how many language-stream programs also agree with LuaCore (disagreements are C01's to report)
+    try:
+        if lang_cases and os.path.exists(os.path.join(vlib.ORACLE, "luacore", "oracle.exe")) and tier == "thorough":
+            from lib import luacore
+            res = luacore.run_both(ck, lang_cases[:1000], bins["default"], os.path.join(vlib.ORACLE, "luacore", "oracle.exe"))
+            ck.cov["luacore_agreement"] = {"compared": len(res), "equal": sum(1 for g, o in res if g == o)}
+    except Exception as ex:
+        ck.notes.append("LuaCore comparison skipped: %r" % (ex,))
     ck.sample({"program": programs[len(TEMPLATES) * reps][1][:500], "default": base[len(TEMPLATES) * reps][:200] if len(base) > len(TEMPLATES) * reps else None})
     if ndiff and not pred_fail and not cross_fail:
         d = ck.cov.get("first_hook_differences", [{}])[0]
